@@ -503,6 +503,40 @@ func runC13(c *seqCtx) {
 		c.Eval("burst=>" + sig)
 		c.Sample("burst: 258 queued index updates with the worker held in a callback")
 	}
+	if c.Mine() {
+		sig := c13NulProbe(db, func(prop, desc string) { c.Fail(prop, desc+" [nulprobe]", "nulprobe") })
+		c.Eval("nulprobe=>" + sig)
+	}
+}
+
+// c13NulProbe: one fixed history outside the key alphabet of the enumeration - an index key that contains the
+// separator byte NUL *and* has another stored key as a proper prefix. The index entry is <key> NUL <id>, so such
+// a key cannot be ordered by (index key, id); see known_findings.json (C13-nul-key-order).
+func c13NulProbe(db *badger.DB, emit func(prop, desc string)) string {
+	var got []string
+	var qerr error
+	r := scen.RunSeq(func() {
+		dbClear(db)
+		st := badgerstore.NewStore(db)
+		qs := badgerstore.NewQueryStore(st, c13IQ)
+		qs.AddIndex(badgerstore.Index{Name: "i", Key: func(v interface{}) []byte { return c13Key("i", v.(map[string]interface{})) }})
+		for _, e := range [][2]string{{"c", "k"}, {"a", "k\x00b"}} {
+			wt := st.Write(e[0])
+			wt.Create(map[string]interface{}{"k1": e[1]})
+			wt.Close()
+		}
+		qs.Flush()
+		var res interface{}
+		res, qerr = qs.Query(c13Query{Idx: "i", Prefix: "k", Limit: -1}.values())
+		got, _ = res.([]string)
+	})
+	for _, p := range r.Panics {
+		emit("C13", "thread panicked: "+firstLineOf(p))
+	}
+	if qerr != nil || !sameIDs(got, []string{"c", "a"}) {
+		emit("C13", fmt.Sprintf("index keys containing the separator byte: values c (key \"k\") and a (key \"k\\x00b\"), query {i, prefix k} returned %v (err %v); ordered bytewise by (index key, id) it is [c a]", got, qerr))
+	}
+	return strings.Join(got, ",")
 }
 
 // c13Burst: the index worker is held inside its first query-change callback while one writer queues more
@@ -653,6 +687,11 @@ func replayC13(input string) []string {
 	if input == "burst" {
 		var out []string
 		c13Burst(db, func(prop, desc string) { out = append(out, prop+": "+desc) })
+		return out
+	}
+	if input == "nulprobe" {
+		var out []string
+		c13NulProbe(db, func(prop, desc string) { out = append(out, prop+": "+desc) })
 		return out
 	}
 	qs := c13BasicQueries()
